@@ -1,5 +1,246 @@
 package main
 
+import (
+	"fmt"
+	"go/ast"
+	"go/constant"
+	"sort"
+	"strings"
+)
+
 // genAll is extended as more tables are needed.
 func genAll() {
+	genCode()
+	genTree()
+	genRunner()
+}
+
+func findFunc(files []*ast.File, name string) *ast.FuncDecl {
+	for _, f := range files {
+		for _, d := range f.Decls {
+			if fd, ok := d.(*ast.FuncDecl); ok && fd.Name.Name == name && fd.Recv == nil {
+				return fd
+			}
+		}
+	}
+	die("function %s not found", name)
+	return nil
+}
+
+// switchTable reads `switch x { case A, B: return K ... default: ... }` in function name and
+// returns constant-name -> returned constant (as source text: an int literal, true or false).
+func switchTable(pc *pkgConsts, name string) map[string]string {
+	fd := findFunc(pc.files, name)
+	out := map[string]string{}
+	var sw *ast.SwitchStmt
+	ast.Inspect(fd.Body, func(n ast.Node) bool {
+		if s, ok := n.(*ast.SwitchStmt); ok && sw == nil {
+			sw = s
+		}
+		return true
+	})
+	if sw == nil {
+		die("%s: no switch", name)
+	}
+	for _, st := range sw.Body.List {
+		cc := st.(*ast.CaseClause)
+		if cc.List == nil {
+			continue // default
+		}
+		if len(cc.Body) != 1 {
+			die("%s: case body not a single return", name)
+		}
+		ret, ok := cc.Body[0].(*ast.ReturnStmt)
+		if !ok || len(ret.Results) != 1 {
+			die("%s: case body not a single return", name)
+		}
+		var val string
+		switch r := ret.Results[0].(type) {
+		case *ast.BasicLit:
+			val = r.Value
+		case *ast.Ident:
+			val = r.Name
+		default:
+			die("%s: unsupported return expression", name)
+		}
+		for _, e := range cc.List {
+			id, ok := e.(*ast.Ident)
+			if !ok {
+				die("%s: case label not an identifier", name)
+			}
+			out[id.Name] = val
+		}
+	}
+	return out
+}
+
+func genCode() {
+	pc := loadConsts("syntax", "code.go", "tree.go", "writer.go")
+	var sb strings.Builder
+	sb.WriteString(header)
+	sb.WriteString("(* syntax/code.go: InstOp constants, opcodeSize, opcodeBacktracks *)\n")
+	ops := []string{"Onerep", "Notonerep", "Setrep", "Oneloop", "Notoneloop", "Setloop", "Onelazy", "Notonelazy", "Setlazy",
+		"One", "Notone", "Set", "Multi", "Ref", "Bol", "Eol", "Boundary", "Nonboundary", "Beginning", "Start", "EndZ", "End", "Nothing",
+		"Lazybranch", "Branchmark", "Lazybranchmark", "Nullcount", "Setcount", "Branchcount", "Lazybranchcount", "Nullmark", "Setmark",
+		"Capturemark", "Getmark", "Setjump", "Backjump", "Forejump", "Testref", "Goto", "Prune", "Stop", "ECMABoundary", "NonECMABoundary",
+		"Oneloopatomic", "Notoneloopatomic", "Setloopatomic", "UpdateBumpalong", "Mask", "Rtl", "Back", "Back2", "Ci"}
+	fmt.Fprintf(&sb, "Definition instop : list (Z * Z) := (* (index in the list below, value) *)\n  [")
+	for i, o := range ops {
+		if i > 0 {
+			sb.WriteString("; ")
+		}
+		fmt.Fprintf(&sb, "(%d, %d)", i, pc.intOf(o))
+	}
+	sb.WriteString("].\n")
+	fmt.Fprintf(&sb, "(* names, in order: %s *)\n", strings.Join(ops, " "))
+	for _, o := range ops {
+		fmt.Fprintf(&sb, "Definition G_%s : Z := %d.\n", o, pc.intOf(o))
+	}
+	size := switchTable(pc, "opcodeSize")
+	bt := switchTable(pc, "opcodeBacktracks")
+	type kv struct{ k, v int64 }
+	var sz []kv
+	for name, v := range size {
+		var n int64
+		fmt.Sscan(v, &n)
+		sz = append(sz, kv{pc.intOf(name), n})
+	}
+	sort.Slice(sz, func(i, j int) bool { return sz[i].k < sz[j].k })
+	sb.WriteString("Definition opcode_size_tbl : list (Z * Z) :=\n  [")
+	for i, e := range sz {
+		if i > 0 {
+			sb.WriteString("; ")
+		}
+		fmt.Fprintf(&sb, "(%d, %d)", e.k, e.v)
+	}
+	sb.WriteString("].\n")
+	var bl []int64
+	for name, v := range bt {
+		if v == "true" {
+			bl = append(bl, pc.intOf(name))
+		} else if v != "false" {
+			die("opcodeBacktracks: unexpected %s", v)
+		}
+	}
+	sort.Slice(bl, func(i, j int) bool { return bl[i] < bl[j] })
+	fmt.Fprintf(&sb, "Definition opcode_backtracks_list : list Z := %s.\n", zlist(bl))
+	fmt.Fprintf(&sb, "Definition MaxPrefixSize : Z := %d.\n", pc.intOf("MaxPrefixSize"))
+	fmt.Fprintf(&sb, "Definition MultiVsRepeaterLimit : Z := %d.\n", pc.intOf("MultiVsRepeaterLimit"))
+	fmt.Fprintf(&sb, "Definition BeforeChild : Z := %d.\nDefinition AfterChild : Z := %d.\n", pc.intOf("BeforeChild"), pc.intOf("AfterChild"))
+	writeIfChanged("CodeGen.v", sb.String())
+}
+
+func genTree() {
+	pc := loadConsts("syntax", "tree.go", "parser.go")
+	var sb strings.Builder
+	sb.WriteString(header)
+	sb.WriteString("(* syntax/tree.go NodeType constants and syntax/parser.go RegexOptions bits *)\n")
+	nts := []string{"NtOneloop", "NtNotoneloop", "NtSetloop", "NtOnelazy", "NtNotonelazy", "NtSetlazy", "NtOne", "NtNotone", "NtSet", "NtMulti", "NtRef",
+		"NtBol", "NtEol", "NtBoundary", "NtNonboundary", "NtBeginning", "NtStart", "NtEndZ", "NtEnd", "NtNothing", "NtEmpty", "NtAlternate",
+		"NtConcatenate", "NtLoop", "NtLazyloop", "NtCapture", "NtGroup", "NtPosLook", "NtNegLook", "NtAtomic", "NtBackRefCond", "NtExprCond",
+		"NtECMABoundary", "NtNonECMABoundary", "NtOneloopatomic", "NtNotoneloopatomic", "NtSetloopatomic", "NtUpdateBumpalong"}
+	for _, n := range nts {
+		fmt.Fprintf(&sb, "Definition G_%s : Z := %d.\n", n, pc.intOf(n))
+	}
+	for _, n := range []string{"IgnoreCase", "Multiline", "ExplicitCapture", "Singleline", "IgnorePatternWhitespace", "RightToLeft", "ECMAScript", "RE2", "Unicode"} {
+		fmt.Fprintf(&sb, "Definition G_opt_%s : Z := %d.\n", n, pc.intOf(n))
+	}
+	writeIfChanged("TreeGen.v", sb.String())
+}
+
+// constants of runner.go's initMatch / ensureStorage that the capacity theorems depend on
+func genRunner() {
+	pc := loadConsts(".", "runner.go")
+	fd := (*ast.FuncDecl)(nil)
+	for _, f := range pc.files {
+		for _, d := range f.Decls {
+			if x, ok := d.(*ast.FuncDecl); ok && x.Name.Name == "initMatch" {
+				fd = x
+			}
+		}
+	}
+	if fd == nil {
+		die("initMatch not found")
+	}
+	// collect: `tracksize := r.runtrackcount * K`, `if tracksize < K`, `stacksize ...`, `make([]int, 32)`
+	vals := map[string]int64{}
+	lit := func(e ast.Expr) (int64, bool) {
+		if tv, ok := pc.info.Types[e]; ok && tv.Value != nil {
+			if v, ok := constant.Int64Val(constant.ToInt(tv.Value)); ok {
+				return v, true
+			}
+		}
+		return 0, false
+	}
+	ast.Inspect(fd.Body, func(n ast.Node) bool {
+		switch x := n.(type) {
+		case *ast.AssignStmt:
+			if len(x.Lhs) == 1 && len(x.Rhs) == 1 {
+				if id, ok := x.Lhs[0].(*ast.Ident); ok {
+					if be, ok := x.Rhs[0].(*ast.BinaryExpr); ok && be.Op.String() == "*" {
+						if v, ok := lit(be.Y); ok {
+							vals[id.Name+"_mul"] = v
+						}
+					}
+					if v, ok := lit(x.Rhs[0]); ok {
+						vals[id.Name+"_min"] = v
+					}
+				}
+				if sel, ok := x.Lhs[0].(*ast.SelectorExpr); ok {
+					if call, ok := x.Rhs[0].(*ast.CallExpr); ok && len(call.Args) == 2 {
+						if v, ok := lit(call.Args[1]); ok {
+							vals[sel.Sel.Name+"_make"] = v
+						}
+					}
+				}
+			}
+		}
+		return true
+	})
+	need := []string{"tracksize_mul", "stacksize_mul", "tracksize_min", "stacksize_min", "runcrawl_make"}
+	var sb strings.Builder
+	sb.WriteString(header)
+	sb.WriteString("(* runner.go initMatch: initial stack sizes; ensureStorage: free-space factor *)\n")
+	for _, k := range need {
+		v, ok := vals[k]
+		if !ok {
+			die("initMatch: could not find %s (found %v)", k, vals)
+		}
+		fmt.Fprintf(&sb, "Definition G_%s : Z := %d.\n", k, v)
+	}
+	// ensureStorage: `r.Runtrackpos < r.runtrackcount*K`
+	es := (*ast.FuncDecl)(nil)
+	for _, f := range pc.files {
+		for _, d := range f.Decls {
+			if x, ok := d.(*ast.FuncDecl); ok && x.Name.Name == "ensureStorage" {
+				es = x
+			}
+		}
+	}
+	if es == nil {
+		die("ensureStorage not found")
+	}
+	factors := map[int64]int{}
+	nTrackChecks := 0
+	ast.Inspect(es.Body, func(n ast.Node) bool {
+		if be, ok := n.(*ast.BinaryExpr); ok && be.Op.String() == "<" {
+			if mul, ok := be.Y.(*ast.BinaryExpr); ok && mul.Op.String() == "*" {
+				if v, ok := lit(mul.Y); ok {
+					factors[v]++
+					if sel, ok := be.X.(*ast.SelectorExpr); ok && sel.Sel.Name == "Runtrackpos" {
+						nTrackChecks++
+					}
+				}
+			}
+		}
+		return true
+	})
+	if len(factors) != 1 {
+		die("ensureStorage: expected one free-space factor, found %v", factors)
+	}
+	for k := range factors {
+		fmt.Fprintf(&sb, "Definition G_ensure_factor : Z := %d.\n", k)
+	}
+	fmt.Fprintf(&sb, "(* number of `Runtrackpos < runtrackcount*K` tests in ensureStorage: the re-check after growTrack makes it 2 *)\nDefinition G_ensure_track_checks : Z := %d.\n", nTrackChecks)
+	writeIfChanged("RunnerGen.v", sb.String())
 }
